@@ -16,7 +16,7 @@
  *                             (closed: the client half-closes after them; else it just stays silent)
  *   wx <b64> <len> <seed>     rfbWriteExact of len pseudo-random bytes on a WebSocket connection
  * Part 2 (end to end, checked by the Python oracle): conn / seg / rs / pump / scut / out, see below.
- *   thr <tcp|ws> <auth> <markerkey> <deadline-ms> <prehex> <seghex>...
+ *   thr <tcp|ws> <auth> <markerkey> <deadline-ms> <prehex> <seghex|W|R<n>>...
  *                             the same kind of conversation served by the THREADED loop
  *                             (rfbRunEventLoop(..., TRUE) + a clientInput thread), in a child process
  */
@@ -82,7 +82,13 @@ static const char *ename(int e) {
   }
 }
 
+/* the library's error log as an application may install it: like a real logger (stdio on a pipe,
+   syslog) it leaves errno changed.  Installed for the decoder ops: what the decoder reports after
+   a failed transport read must be the transport's errno, not the logger's. */
+static void c09_errlog(const char *fmt, ...) { (void)fmt; errno = ENOTTY; }
+
 static void fresh(void) {
+  rfbErr = c09_errlog;
   if (W) free(W);
   W = (ws_ctx_t *)calloc(1, sizeof *W);
   hybiDecodeCleanupComplete(W);
@@ -261,6 +267,26 @@ static long find_hdr_end(const unsigned char *p, size_t n) {
   return -1;
 }
 
+/* number of RFB bytes the server has sent so far (thr op): raw count on TCP, payload of the complete
+   unmasked frames after the 101 response on WebSocket (base64: decoded length) */
+static size_t srv_rfb_bytes(e2e_t *e) {
+  const unsigned char *p = e->c.out.p; size_t n = e->c.out.n, tot = 0; long he;
+  if (!e->ws) return n;
+  he = find_hdr_end(p, n);
+  if (he < 0) return 0;
+  p += he; n -= (size_t)he;
+  while (n >= 2) {
+    size_t hl = 2, len = p[1] & 0x7f; int text = (p[0] & 0x0f) == 1;
+    if (len == 126) { if (n < 4) break; len = ((size_t)p[2] << 8) | p[3]; hl = 4; }
+    else if (len == 127) { int i; if (n < 10) break; len = 0; for (i = 2; i < 10; i++) len = (len << 8) | p[i]; hl = 10; }
+    if (n < hl + len) break;
+    if (!text) tot += len;
+    else { size_t d = len / 4 * 3; if (len >= 1 && p[hl + len - 1] == '=') d--; if (len >= 2 && p[hl + len - 2] == '=') d--; tot += d; }
+    p += hl + len; n -= hl + len;
+  }
+  return tot;
+}
+
 static void pump(e2e_t *e) {
   int idle_rounds = 0, iter = 0;
   while (idle_rounds < 2 && iter < 200000) {
@@ -433,7 +459,7 @@ int main(void) {
       fflush(stdout);
       pid = fork();
       if (pid == 0) {
-        e2e_t *e = &E[MAXC - 1]; int sv[2], i, eof = 0, done = 0; long k; struct timeval t0, t1; long ms = 0;
+        e2e_t *e = &E[MAXC - 1]; int sv[2], i, eof = 0, done = 0, waitfail = 0; long k; struct timeval t0, t1; long ms = 0;
         FILE *o = fdopen(pfd[1], "w");
         close(pfd[0]);
         memset(e, 0, sizeof *e); e->used = 1; e->ws = !strcmp(tok[1], "ws");
@@ -453,11 +479,23 @@ int main(void) {
           rfbStartOnHoldClient(e->c.cl);
           fprintf(o, "thr conn=ok ws=%d b64=%d", isws, b64 ? 1 : 0); }
         for (i = 6; i < n; i++) {
+          if (!strcmp(tok[i], "W")) {        /* let the server work off what it has got */
+            int w = 0;
+            while (w < 2000 && vh_srv_pending(sv[0]) > 0) { usleep(500); w++; }
+            usleep(15000); vh_drain(&e->c);
+            continue;
+          }
+          if (tok[i][0] == 'R') {            /* an interactive client: wait for the server's answers (RFB byte count) */
+            size_t need = (size_t)atol(tok[i] + 1); int w = 0;
+            while (w < 3000 && !eof && srv_rfb_bytes(e) < need) { eof = vh_drain(&e->c); usleep(1000); w++; }
+            if (srv_rfb_bytes(e) < need) { waitfail = i - 5; break; }
+            continue;
+          }
           k = vh_unhex(tok[i], hb, hcap);
           if (k < 0 || vh_send(&e->c, hb, (size_t)k) < 0) break;
         }
         gettimeofday(&t0, NULL);
-        while (!done && !eof && ms < deadline) {
+        while (!done && !eof && !waitfail && ms < deadline) {
           eof = vh_drain(&e->c);
           done = __atomic_load_n(&thr_done, __ATOMIC_ACQUIRE);
           if (!done && !eof) usleep(500);
@@ -466,7 +504,7 @@ int main(void) {
         }
         usleep(20000); if (vh_drain(&e->c)) eof = 1;
         pthread_mutex_lock(&evmu);
-        fprintf(o, " done=%d closed=%d ev=", done, eof);
+        fprintf(o, " done=%d closed=%d noanswer=%d got=%lu ev=", done, eof, waitfail, (unsigned long)srv_rfb_bytes(e));
         if (e->ev.n) fwrite(e->ev.p, 1, e->ev.n, o); else fputc('-', o);
         pthread_mutex_unlock(&evmu);
         fprintf(o, " out=");
